@@ -719,12 +719,24 @@ fn corpus(ctx: &mut GenCtx) {
         // reference from another graph only
         vec![q(&s, &p, &l, &g1), q(&l, &first, &a, &None), q(&l, &rest, &nil, &None)],
         vec![],
+        // the dataset every `Jsonifier` is used for before the request's own (see main.rs)
+        crate::warmup(),
+        // same subject, two predicates, one list
+        vec![q(&s, &p, &l, &None), q(&s, &iri("http://x/q"), &l, &None), q(&l, &first, &a, &None), q(&l, &rest, &nil, &None)],
+        // a nested list in front of a cell that two lists share
+        vec![q(&s, &p, &l, &None), q(&l, &first, &m, &None), q(&m, &first, &a, &None), q(&m, &rest, &nil, &None),
+            q(&l, &rest, &bn("t"), &None), q(&bn("t"), &first, &a, &None), q(&bn("t"), &rest, &nil, &None),
+            q(&s, &p, &bn("u"), &None), q(&bn("u"), &first, &a, &None), q(&bn("u"), &rest, &bn("t"), &None)],
     ];
     for c in &cases {
         for (mode, urt) in [("11", "0"), ("10", "0"), ("11", "1")] {
             ctx.emit(&render(mode, urt, "n", "0", c));
             ctx.stats.bump("corpus");
         }
+    }
+    for dir in ["i", "c"] {
+        ctx.emit(&render("11", "0", dir, "2", &crate::warmup()));
+        ctx.stats.bump("corpus");
     }
 }
 
@@ -801,7 +813,7 @@ pub fn generate(ctx: &mut GenCtx) {
             exhaustive_over(ctx, &core, &subs, &preds4, &objs, &[None, g.clone()], 2, "10", "0", "exhaustive.cell_plus");
         }
     }
-    let n = if ctx.thorough { 40000 } else { 4000 };
+    let n = if ctx.thorough { 40000 } else { 8000 };
     let mut g = G { ctx };
     for i in 0..n {
         let force = match i % 10 {
